@@ -28,6 +28,8 @@ MARKER_PROPS = {
     "VF:slice_opt.": ["C01", "C02", "C03", "C05"],
     "VF:owned.forms.": ["C20"],
     "VF:owned.forms.read": ["C20", "C01"],
+    "VF:owned.forms.earlier_read_changed": ["C02"],
+    "VF:string.forms.": ["C20"],
     "VF:columns.": ["C12", "C01", "C02"],
     "VF:columns.dense_indices": ["C12", "C20"],
     "VF:option.roundtrip": ["C01", "C02"],
